@@ -15,6 +15,53 @@ CHECKS = {
             "attached to the real functions observe every internal call as well. Exhaustive inside the bound, "
             "sampled beyond (accidental strings up to 2000 long).",
             "trusted: rv/models/theory.py (3 tables), CPython 3.12, icontract 2.7.3", "4 C01"),
+    "C02": ("runtime contracts on the 17 interval constructors + measure, exhaustive bounded sweep judged by the model",
+            "Exploration: 17 constructors x every name with <= 5 (quick) / <= 9 (thorough) accidentals in every order plus "
+            "pure names up to 40 accidentals; all ordered pairs of names with <= 4 / <= 6 accidentals for measure and the "
+            "consonance predicates with both flag values. The letter/distance contracts stay attached in every other check.",
+            "trusted: interval table (number, semitones) in rv/models/theory.py", "4 C02"),
+    "C03": ("recorded calls of determine/from_shorthand/invert compared with an independent interval-name model",
+            "Exploration: all ordered pairs of pure names up to double (quick) / quintuple (thorough) accidentals whose "
+            "letter distance is 0..11, both forms, inverse application; names x shorthands x up/down with the "
+            "up-then-down identity; random interval lists for invert (result and argument integrity).",
+            "trusted: rv/models/theory.py interval_name / shorthand_apply", "4 C03"),
+    "C04": ("contracts on keys.get_notes + exhaustive sweep of keys, integers and candidate strings against a circle-of-fifths model",
+            "Exploration, exhaustive inside the stated bounds: all 30 keys (every clause, cold/warm/interleaved), integers "
+            "-40..40 and powers of two, every string of length <= 3 (quick) / <= 4 (thorough) over 'A-G a-g # b' as a candidate "
+            "key through six entry points, 30 keys x note spellings x 6 diatonic steps.",
+            "trusted: line-of-fifths key model in rv/models/theory.py", "4 C04"),
+    "C05": ("scale objects driven over all classes/tonics/octaves/degrees with structural oracles; recognition vs brute-force spec",
+            "Exploration: 18 scale classes x tonics valid for the class (<= 2 / <= 3 accidentals) x octaves 1..3 / 1..6 x every "
+            "degree in both directions; equality over pairs of scale objects; 2 000 / 60 000 note sets for recognition "
+            "compared with a brute-force specification built from the model's step patterns.",
+            "trusted: step-pattern table and spell_scale in rv/models/theory.py", "4 C05"),
+    "C06": ("contracts on chord builders + sweep of the live shorthand table against an independent chord-formula table",
+            "Exploration: every key of the live chord_shorthand table x roots (pure <= 2; thorough: every order <= 3 and pure <= 6), "
+            "named builders, alias spellings, slash basses, polychord pairs, lists, NC, three classes of malformed strings, "
+            "key-set equality of the two tables and same-meaning => same-chord.",
+            "trusted: rv/models/chordtab.py (formula per shorthand, following the library's documented meaning text)", "4 C06"),
+    "C07": ("recorded determine() answers in both forms checked by reconstruction through from_shorthand",
+            "Exploration: every shorthand with >= 3 notes x 21 (quick) / 35 (thorough) roots x every rotation x both forms x flag "
+            "combinations; all 9 261 three-note inputs; 0/1/2-note inputs; 3 000 / 60 000 structured 4-7 note inputs and "
+            "(thorough) 5 000 8-14 note inputs for no-raise / same-length / constructible-name clauses.",
+            "trusted: chord formula table, the library's own from_shorthand as the reconstruction step (itself decided by C06)", "4 C07"),
+    "C08": ("recorded calls of the harmony API compared with stacked-thirds model; argument-integrity monitor (M-args)",
+            "Exploration: 30 keys x 7 degrees x triad/seventh x function names, numeral aliases, numeral strings in both cases, "
+            "prefixes -3..3, every suffix; harmonic-function lookup and its inverse in 15 major keys; parse/format on 7 x 13 x all "
+            "suffixes; five substitution rules + substitute(depth 0,1; thorough: 2) on every numeral x suffix x prefix in 3 / 15 "
+            "major keys with per-rule semantic oracles and caller-list integrity.",
+            "trusted: key model + chord formula table", "4 C08"),
+    "C09": ("sys.monitoring LINE step-budget watchdog on meter predicates + value sweeps against exact rational arithmetic",
+            "Exploration with bounded-progress restatement of termination: every meter predicate call runs under a 20 000 "
+            "line-event budget (2^1023 needs 3 074); units over integers -64..4096, 2^k up to 2^1023, floats, fractions, "
+            "non-finite values; counts -10..60; value analysis on 80 constructed values and the +-1% neighbourhood at step "
+            "0.001 / 0.0001; add/subtract on 400 / 20 000 pairs.",
+            "trusted: fractions.Fraction, sys.monitoring; 'terminates' is decided only as 'returns within the step budget'", "4 C09"),
+    "C10": ("Note objects driven over names/octaves/integers/pairs/Hz grid; oracles = integer model, independent Helmholtz writer",
+            "Exploration: pure names <= 2 / <= 4 accidentals x octaves 0..9 (pitch, four text forms, Helmholtz both ways), integers "
+            "0..127+, all ordered pairs of 105 / 1 050 notes x 6 operators, 128 notes x 5 / 201 standard pitches x detuning grid "
+            "-40..40 cents (step 10 / 1), velocity/channel bounds through five entry points, malformed names, copy independence.",
+            "trusted: integer pitch model, math.pow for the Hz expectation", "4 C10"),
 }
 
 PENDING = {}
